@@ -34,7 +34,8 @@ THEOREMS = [
     'Tbox.C17.C17_parallel_restart_from_final_callback', 'Tbox.C17.stepR_wf', 'Tbox.C17.hookF_ok', 'Tbox.C17.startR_wf', 'Tbox.C17.runTaskR_wf',
     # ActionExecutor
     'Tbox.C17.C17_exec_one_at_a_time', 'Tbox.C17.C17_exec_heads_only', 'Tbox.C17.C17_exec_highest_priority_first', 'Tbox.C17.Exec.sched_hp', 'Tbox.C17.C17_exec_callbacks_once', 'Tbox.C17.Exec.sched_li',
-    'Tbox.C17.C17_run_ids_distinct', 'Tbox.C17.step_idsOk', 'Tbox.C17.Exec.sched_inv', 'Tbox.C17.Exec.xstep_inv',
+    'Tbox.C17.C17_run_ids_distinct', 'Tbox.C17.step_idsOk', 'Tbox.C17.C17_run_task_local',
+    'Tbox.C17.C17_rerun_after_reset', 'Tbox.C17.C17_rerun_finishes_exactly_once', 'Tbox.C17.result_matches_from', 'Tbox.C17.finishes_once_from', 'Tbox.C17.Exec.sched_inv', 'Tbox.C17.Exec.xstep_inv',
     # the inductive steps themselves
     'Tbox.C17.bstep_inv', 'Tbox.C17.step_wf', 'Tbox.C17.reachable_wf', 'Tbox.C17.seq_drive_aux',
 ]
@@ -301,6 +302,8 @@ def gen(rng, tier):
            'tree ( loop:fe )', 'tree Z51', 'tree Fs@51', 'tree ( rep:1001:nb Fs )', 'tree ( ife:ff Fs )', 'tree ( sw:n Fs )', 'tree )',
            'tree ( cmp Fs Fs )', 'tree Fs:21', 'tree ( lif:t Fs )', 'cfg 111', 'tree Fs', 'do', 'do frob', 'do emit:1:s', 'do emit:0:q', 'adv 101',
            'adv x', 'pass 1', 'frob', 'do start', 'do emit:0:s', 'pass', 'cfg 1111']
+    # a malformed line in the middle of a run takes no loop pass on either side
+    yield ['tree ( seq:all Fs ( seq:all Fs Z0 ) Fs )', 'do start', 'frob', 'pass', 'settle', 'adv x', 'do', 'pass', 'tree (', 'adv 1', 'icb body 9 0 stop', 'pass', 'pass', 'pass']
     # directed: the three repaired defects and the stale-block pattern
     yield ['tree ( par:all Fs Fs )', 'do start pause', 'pass', 'do resume', 'pass', 'pass', 'pass']
     yield ['tree ( ife:tt Fs Fs Ff )', 'do start', 'do pause', 'pass', 'do resume reset', 'pass', 'pass', 'do start', 'pass', 'pass', 'pass']
@@ -441,7 +444,7 @@ LEVEL_NOTE = ('whole-tree "root result = documented meaning, exactly one finish 
               'the deferred queue for trees of Sequence/IfElse/IfThen/Switch/Wrapper/Composite/Loop/LoopIf/Repeat(n>=1) over Function and Sleep leaves (C17_result_matches_doc_serial, '
               'safety for every pass/clock sequence; C17_finishes_exactly_once, liveness: after cost(t)+1 big clock steps / passes in any fair schedule the trace IS the complete visit order + one finish, when the evaluator terminates; C17_loop_never_finishes: otherwise no finish notification ever; C17_skeleton_preserved for every op sequence); OPEN: order of the calls of a non-terminating loop, Parallel, timeouts (compared with the evaluator on '
               'every control-free generated run for all composites); trace equivalence '
-              'of a reset tree with a fresh one (Clean + WF after reset are proved); ActionExecutor: one-at-a-time, heads-only, highest-priority-first and callbacks-once proved; trusted: Lean kernel, '
+              'of a reset tree with a fresh one in general (proved: Clean + WF after reset, and C17_rerun_after_reset: covered class, second run without control calls, after any history); ActionExecutor: one-at-a-time, heads-only, highest-priority-first and callbacks-once proved; trusted: Lean kernel, '
               'hand-written model, harness, generator coverage (measured)')
 TECHNIQUE = 'Lean 4 invariant/structural-induction proofs over an action-tree model + model/implementation correspondence on the real loop'
 DESIGN_REF = 'DESIGN.md §6 C17, §7 row 15'
